@@ -50,7 +50,7 @@ def record(name, args):
     """One output record (dict) for an application, merging variants when they agree."""
     res = {}
     sig, fn = REG[name]
-    if name == "consByteString":
+    if name in ("consByteString", "shiftByteString", "rotateByteString"):
         for v in VARIANTS:
             res[v] = evaluate(name, args, v)
     else:
